@@ -1,0 +1,39 @@
+//! `Instant` replacement reading the simulated clock when a runtime is installed.
+
+use std::ops::Sub;
+use std::time::Duration;
+
+#[derive(Copy, Clone, Debug, PartialEq, Eq, PartialOrd, Ord)]
+pub enum Instant {
+    Real(std::time::Instant),
+    Sim(u64),
+}
+
+impl Instant {
+    pub fn now() -> Instant {
+        match super::rt::runtime() {
+            Some(rt) => Instant::Sim(rt.now_ns()),
+            None => Instant::Real(std::time::Instant::now()),
+        }
+    }
+
+    pub fn elapsed(&self) -> Duration {
+        Instant::now() - *self
+    }
+
+    pub fn duration_since(&self, earlier: Instant) -> Duration {
+        *self - earlier
+    }
+}
+
+impl Sub<Instant> for Instant {
+    type Output = Duration;
+    /// Saturating, like `std::time::Instant` since Rust 1.60.
+    fn sub(self, other: Instant) -> Duration {
+        match (self, other) {
+            (Instant::Real(a), Instant::Real(b)) => a.saturating_duration_since(b),
+            (Instant::Sim(a), Instant::Sim(b)) => Duration::from_nanos(a.saturating_sub(b)),
+            _ => Duration::ZERO,
+        }
+    }
+}
